@@ -80,6 +80,27 @@ def expectation_over_probes(name, value, target):
     return Clause(name, "expect", jnp.concatenate([v, t]), lhs=int(v.size))
 
 
+def cancel(name, X, N, V):
+    """Left cancellation (a proof hint, sound by construction): to show X == 0 it suffices that N X == 0 and
+    V N == I.  Emits the obligations ``name.premultiplied`` (N X == 0) and ``name.left_inverse`` (V N == I), which
+    are discharged like any other equality, and then ``name`` (X == 0) with the explicit certificate
+        X_ij = sum_l V_il (N X)_lj - sum_k (V N - I)_ik X_kj
+    that is re-checked by the SMT solvers together with the searched certificates."""
+    X, N, V = jnp.asarray(X), jnp.asarray(N), jnp.asarray(V)
+    X2 = X.reshape(X.shape[0], -1)
+    assert N.shape[1] == X2.shape[0] and V.shape == (N.shape[1], N.shape[0]), (X.shape, N.shape, V.shape)
+    return Clause(name, "cancel", jnp.concatenate([jnp.ravel(X2), jnp.ravel(N), jnp.ravel(V)]), lhs=(X2.shape, N.shape, V.shape))
+
+
+_ASSUMING = [0]
+
+
+def assuming():
+    """True while the ensures-clauses of a callee are traced as assumptions at a call site (proof-only clauses
+    such as ``cancel`` lemmas can be skipped there)."""
+    return _ASSUMING[0] > 0
+
+
 def define(name, out_leaf, expr):
     """Equality ``out_leaf == expr`` where ``out_leaf`` is literally a leaf of the result.
 
@@ -274,24 +295,34 @@ def _callee_handler(ctx, prm, *operands):
                         which = oi
                 if which is None:
                     raise RuntimeError(f"'define' clause {c.name} of {contract.name} does not name a result leaf")
+            if c.kind == "cancel":
+                which = c.lhs
             metas.append((c.name, c.kind, which))
         return [c.value for c in cl], metas
 
     all_avals = in_avals + [jax.ShapeDtypeStruct(a.shape, a.dtype) for a in out_avals]
     sub_ctx = interp.Ctx()
     sub_ctx.path = list(ctx.path)
-    vals, metas = _trace_eval(sub_ctx, ens, all_avals, list(operands) + fresh)
-    defs = {which: val for (nm, kind, which), val in zip(metas, vals) if kind == "def"}
-    if defs:
-        for which, val in defs.items():
-            fresh[which] = val
-        vals, metas = _trace_eval(ctx, ens, all_avals, list(operands) + fresh)
-    else:
-        ctx.assumptions.extend(sub_ctx.assumptions)
-        ctx.obligations.extend(sub_ctx.obligations)
+    _ASSUMING[0] += 1
+    try:
+        vals, metas = _trace_eval(sub_ctx, ens, all_avals, list(operands) + fresh)
+        defs = {which: val for (nm, kind, which), val in zip(metas, vals) if kind == "def"}
+        if defs:
+            for which, val in defs.items():
+                fresh[which] = val
+            vals, metas = _trace_eval(ctx, ens, all_avals, list(operands) + fresh)
+        else:
+            ctx.assumptions.extend(sub_ctx.assumptions)
+            ctx.obligations.extend(sub_ctx.obligations)
+    finally:
+        _ASSUMING[0] -= 1
     for (nm, kind, which), val in zip(metas, vals):
         if kind == "def":
             continue
+        if kind == "cancel":  # at a call site only the conclusion X == 0 is assumed
+            n_x = int(np.prod(which[0]))
+            val = (val if interp.is_obj(val) else interp.to_obj(val))[:n_x]
+            kind = "eq"
         _emit(ctx, f"{tag}.{nm}", kind, val, as_goal=False, origin=f"callee:{contract.name}")
 
     def native(*arrs):
@@ -402,6 +433,37 @@ class Result:
     samples: list = field(default_factory=list)
     error: str | None = None
     num_eqns: int = 0
+    proved_names: set = field(default_factory=set)
+
+
+def _emit_cancel(ctx, name, packed, shapes):
+    packed = packed if interp.is_obj(packed) else interp.to_obj(packed)
+    (xr, xc), (nr, nc), (vr, vc) = shapes
+    X = packed[: xr * xc].reshape(xr, xc)
+    N = packed[xr * xc : xr * xc + nr * nc].reshape(nr, nc)
+    Vm = packed[xr * xc + nr * nc :].reshape(vr, vc)
+    NX = np.empty((nr, xc), dtype=object)
+    for i in range(nr):
+        for j in range(xc):
+            acc = P.ZERO
+            for l in range(nc):
+                acc = acc + N[i, l] * X[l, j]
+            NX[i, j] = acc
+            ctx.oblige_eq(f"{name}.premultiplied[{i},{j}]", acc)
+    VN = np.empty((vr, nc), dtype=object)
+    for i in range(vr):
+        for k in range(nc):
+            acc = P.ZERO
+            for l in range(vc):
+                acc = acc + Vm[i, l] * N[l, k]
+            acc = acc - (P.ONE_V if i == k else P.ZERO)
+            VN[i, k] = acc
+            ctx.oblige_eq(f"{name}.left_inverse[{i},{k}]", acc)
+    for i in range(xr):
+        for j in range(xc):
+            hint = [(f"{name}.premultiplied[{l},{j}]", NX[l, j], Vm[i, l].p) for l in range(nr)]
+            hint += [(f"{name}.left_inverse[{i},{k}]", VN[i, k], (-X[k, j]).p) for k in range(nc)]
+            ctx.oblige_eq(f"{name}[{i},{j}]", X[i, j], hint=hint)
 
 
 def _emit_affine(ctx, name, packed, n):
@@ -628,7 +690,7 @@ def _verify(contract, inst, res, seed, tier):
             which = None
             if c.kind == "indep":
                 which = [j for j, x in enumerate(ins) if any(x is l for l in c.lhs)]
-            if c.kind in ("affine", "expect"):
+            if c.kind in ("affine", "expect", "cancel"):
                 which = c.lhs
             metas.append((c.name, c.kind, which))
         return [(jnp.asarray(c.lhs) - c.value) if c.kind == "def" else c.value for c in cl], metas
@@ -646,6 +708,9 @@ def _verify(contract, inst, res, seed, tier):
                 p = packed[i].p
                 mean = P.Poly({m: c for m, c in p.t.items() if not any(s in probes for s, _ in m)})
                 ctx.oblige_eq(f"ensures.{nm}[{i}]", V(mean) - packed[which + i])
+            continue
+        if kind == "cancel":
+            _emit_cancel(ctx, f"ensures.{nm}", val, which)
             continue
         if kind == "indep":
             forbidden = set()
@@ -869,6 +934,7 @@ def discharge(ctx: interp.Ctx, contract: Contract, res: Result, numenv: NumEnv, 
         ok, how, detail = _discharge_one(ob, ctx, eq_assm + atom_h + proven_lemmas, bool_assm, res, identities, fallback_budget)
         if ok:
             res.discharged += 1
+            res.proved_names.add(ob["name"])
             if how is not None:
                 backend[how] = backend.get(how, 0) + 1
             if ob["kind"] == "eq" and contract.lemma_order and not ob["path"] and not ob["goal"].p.is_zero():
@@ -922,6 +988,19 @@ def _discharge_one(ob, ctx, eq_assm, bool_assm, res, identities, fallback_budget
         if g.p.is_zero():
             identities.append((ob, "nf-identity", g, []))
             return True, None, None
+        if ob.get("hint"):
+            # explicit certificate over obligations proved earlier in this unit (left cancellation)
+            rest = g.p
+            used = []
+            for hname, hv, mult in ob["hint"]:
+                if hname not in res.proved_names:
+                    rest = None
+                    break
+                rest = rest - mult * hv.p
+                used.append(({"name": "lemma:" + hname, "fact": hv}, mult))
+            if rest is not None and rest.is_zero():
+                identities.append((ob, "certificate(cancellation-hint)", g, used))
+                return True, None, None
         hyps = [a for a in eq_assm if _implied(a["path"], ob["path"]) and a["fact"] is not g]
         pkey = tuple(b.key() for b in ob["path"])
         entry = _PROVERS.get(pkey)
